@@ -168,6 +168,8 @@ def main(argv=None) -> int:
         s.setdefault("seed", seed * 1000003 + i)
         s["tier"] = args.tier
     timeout = getattr(mod, "SHARD_TIMEOUT", {"quick": 600, "thorough": 3600})[args.tier]
+    if os.environ.get("PTA_SHARD_TIMEOUT"):
+        timeout = float(os.environ["PTA_SHARD_TIMEOUT"])  # the mutation audit uses a short watchdog (a hanging mutant is not a verdict)
     acc = Acc()
     # upper-case/digit scratch prefix: path-matching exclusion patterns built from (lower-case)
     # tree names can then never match the scratch directory itself
